@@ -76,6 +76,22 @@ Definition run_generate (pre : N) (ents : list (option (list N))) : string :=
 Definition run_sanitycheck (pub : list N) : string :=
   if dh_sanitycheck repo_params pub =? 0 then "rc 0" else "rc -1".
 
+(* with the exponents handed to BN_mod_exp (observed by the --wrap build of the driver):
+   "n" prefix = negative, "-" = zero, else minimal big-endian bytes *)
+Definition show_Z (z : Z) : string :=
+  append (if z <? 0 then "n" else "")
+         (match bn_bn2bin z with [] => "-" | l => hex_of_bytes l end).
+Definition show_exps (priv : list N) (ent : option (list N)) : string :=
+  match ent with
+  | None => ""
+  | Some bl => let '(e1, e2) := blinded_exponents repo_params priv bl in
+               append " e=" (append (show_Z e1) (append "," (show_Z e2)))
+  end.
+Definition run_xgenerate_pub (pre : N) (priv : list N) (ent : option (list N)) : string :=
+  append (run_generate_pub pre priv ent) (show_exps priv ent).
+Definition run_xcompute (pre : N) (pub priv : list N) (ent : option (list N)) : string :=
+  append (run_compute pre pub priv ent) (show_exps priv ent).
+
 (* the SPEC side (independent of the model of the code): RFC prime literal, a^(2^258+x) mod p *)
 Definition spec_generate_pub (priv : list N) : string :=
   show_result (Some (be_encode 256 (fast_modexp 2 (dh_exponent (be_decode priv)) rfc3526_group14))).
